@@ -25,6 +25,11 @@
 (*       and is never stopped.  FALSE = close always moves to "closing".   *)
 (*   Defect_LatePool  policyConnPool.addHost after policyConnPool.Close    *)
 (*       creates a pool nobody closes.  FALSE = refused once closed.       *)
+(*   Defect_ReconnectInline  controlConn.HandleError runs reconnect() on   *)
+(*       the goroutine that noticed the failure; when that is the refresh  *)
+(*       flusher (its own query failed), reconnect's Session.refreshRing() *)
+(*       waits for the flusher itself.  FALSE = reconnect runs in its own  *)
+(*       goroutine.                                                        *)
 (*                                                                         *)
 (* What C17 demands: no deadlock; every Close returns; after the working   *)
 (* Close returned every connection is closed, the background goroutines    *)
@@ -41,11 +46,14 @@ CONSTANTS
   MaxAddHost,     \* refreshes that find a new host (pool creation)
   WithControl,    \* BOOLEAN: the session has a control connection
   OnlyDebouncer,  \* BOOLEAN: the closers call refreshDebouncer.stop() directly (debouncer in isolation)
-  Defect_StopHandshake, Defect_HeartbeatStart, Defect_LatePool,
+  MaxCtlFail,     \* control-connection failures noticed by the refresh flusher's own query
+  Defect_StopHandshake, Defect_HeartbeatStart, Defect_LatePool, Defect_ReconnectInline,
   Mut             \* "none" or a named mutation (model self-test)
 
-HB == "hb"
-Reqs == Requesters \cup {HB}
+HB == "hb"   \* the heartbeat goroutine as a caller of refreshRing()
+FL == "fl"   \* the refresh flusher itself (reconnect run inline)
+RC == "rc"   \* the reconnect goroutine started by controlConn.HandleError (repaired)
+Reqs == Requesters \cup {HB, FL, RC}
 EvDeb == {"node", "schema"}
 
 VARIABLES
@@ -55,19 +63,19 @@ VARIABLES
   \* event debouncers
   evPc, evTimer, evQuit, evCb, nEvents,
   \* control connection
-  ccState, hbPc, ccConnOpen, nProbeFail,
+  ccState, hbPc, ccConnOpen, nProbeFail, reconn, rcPc, nCtlFail,
   \* session
   isClosing, isClosed, poolsClosed, tracked, stray, ctxCancelled, kpc, nAddHost, panicked,
   \* queries issued after some Close returned
   qres
 
 vars == <<rdStopped, rdHasBc, rdBc, rdNow, rdTimer, rdQuit, rdDone, flPc, flCur, reqPc, nDebounce,
-          evPc, evTimer, evQuit, evCb, nEvents, ccState, hbPc, ccConnOpen, nProbeFail,
+          evPc, evTimer, evQuit, evCb, nEvents, ccState, hbPc, ccConnOpen, nProbeFail, reconn, rcPc, nCtlFail,
           isClosing, isClosed, poolsClosed, tracked, stray, ctxCancelled, kpc, nAddHost, panicked, qres>>
 
 rdVars == <<rdStopped, rdHasBc, rdBc, rdNow, rdTimer, rdQuit, rdDone, flPc, flCur, reqPc, nDebounce>>
 evVars == <<evPc, evTimer, evQuit, evCb, nEvents>>
-ccVars == <<ccState, hbPc, ccConnOpen, nProbeFail>>
+ccVars == <<ccState, hbPc, ccConnOpen, nProbeFail, reconn, rcPc, nCtlFail>>
 seVars == <<isClosing, isClosed, poolsClosed, tracked, stray, ctxCancelled, kpc, nAddHost, panicked, qres>>
 
 Init ==
@@ -77,7 +85,7 @@ Init ==
   /\ evPc = [e \in EvDeb |-> "select"] /\ evTimer = [e \in EvDeb |-> "off"]
   /\ evQuit = [e \in EvDeb |-> "open"] /\ evCb = 0 /\ nEvents = 0
   /\ ccState = "starting" /\ hbPc = IF WithControl THEN "spawned" ELSE "exited"
-  /\ ccConnOpen = WithControl /\ nProbeFail = 0
+  /\ ccConnOpen = WithControl /\ nProbeFail = 0 /\ reconn = FALSE /\ rcPc = "idle" /\ nCtlFail = 0
   /\ isClosing = FALSE /\ isClosed = FALSE /\ poolsClosed = FALSE /\ tracked = 1 /\ stray = 0
   /\ ctxCancelled = FALSE /\ kpc = [k \in Closers |-> "idle"] /\ nAddHost = 0 /\ panicked = FALSE
   /\ qres = "none"
@@ -203,7 +211,7 @@ HbStart ==
   /\ IF ccState = "starting"
      THEN ccState' = "started" /\ hbPc' = "select"
      ELSE hbPc' = "exited" /\ UNCHANGED ccState
-  /\ UNCHANGED <<ccConnOpen, nProbeFail>>
+  /\ UNCHANGED <<ccConnOpen, nProbeFail, reconn, rcPc, nCtlFail>>
   /\ UNCHANGED <<rdVars, evVars, seVars>>
 
 \* the heartbeat timer was reset just before the select: it cannot be ready while a closer is
@@ -212,7 +220,7 @@ HbTimer ==
   /\ hbPc = "select"
   /\ \A k \in Closers : kpc[k] # "cc_send"
   /\ hbPc' = "probe"
-  /\ UNCHANGED <<ccState, ccConnOpen, nProbeFail>>
+  /\ UNCHANGED <<ccState, ccConnOpen, nProbeFail, reconn, rcPc, nCtlFail>>
   /\ UNCHANGED <<rdVars, evVars, seVars>>
 
 HbProbe ==
@@ -221,20 +229,25 @@ HbProbe ==
      \/ /\ nProbeFail < MaxProbeFail \/ ~ccConnOpen
         /\ nProbeFail' = IF nProbeFail < MaxProbeFail THEN nProbeFail + 1 ELSE nProbeFail
         /\ hbPc' = "reconnect"
-  /\ UNCHANGED <<ccState, ccConnOpen>>
+  /\ UNCHANGED <<ccState, ccConnOpen, reconn, rcPc, nCtlFail>>
   /\ UNCHANGED <<rdVars, evVars, seVars>>
 
 \* reconnect(): returns at once when closing; otherwise re-dials (fails once the context is
 \* cancelled) and calls Session.refreshRing(), i.e. refreshNow + wait
+\* the body of controlConn.reconnect() up to the refreshRing() call, run by `who`:
+\* nothing when closing, when another reconnect is in progress or when the dial fails
+ReconnectProceeds == ccState # "closing" /\ ~reconn /\ ~ctxCancelled
+
 HbReconnect ==
   /\ hbPc = "reconnect"
-  /\ IF ccState = "closing" \/ ctxCancelled
+  /\ IF ~ReconnectProceeds
      THEN /\ hbPc' = "select"
-          /\ UNCHANGED <<reqPc, rdHasBc, rdBc, rdNow, ccConnOpen>>
+          /\ UNCHANGED <<reqPc, rdHasBc, rdBc, rdNow, ccConnOpen, reconn>>
      ELSE /\ hbPc' = "waitrefresh"
+          /\ reconn' = TRUE
           /\ ccConnOpen' = TRUE                    \* a new control connection is set up
           /\ RefreshNowBy(HB)
-  /\ UNCHANGED <<ccState, nProbeFail>>
+  /\ UNCHANGED <<ccState, nProbeFail, rcPc, nCtlFail>>
   /\ UNCHANGED <<rdStopped, rdTimer, rdQuit, rdDone, flPc, flCur, nDebounce>>
   /\ UNCHANGED <<evVars, seVars>>
 
@@ -243,7 +256,64 @@ HbAnswered ==
   /\ reqPc[HB] \in {"answered", "closed"}
   /\ reqPc' = [reqPc EXCEPT ![HB] = "idle"]
   /\ hbPc' = "select"
-  /\ UNCHANGED <<ccState, ccConnOpen, nProbeFail>>
+  /\ reconn' = FALSE
+  /\ UNCHANGED <<ccState, ccConnOpen, nProbeFail, rcPc, nCtlFail>>
+  /\ UNCHANGED <<rdStopped, rdHasBc, rdBc, rdNow, rdTimer, rdQuit, rdDone, flPc, flCur, nDebounce>>
+  /\ UNCHANGED <<evVars, seVars>>
+
+\* The flusher's own query fails on the control connection (write error / timeout): Conn.exec calls
+\* closeWithError on this goroutine, which calls controlConn.HandleError.
+FlCtlFail ==
+  /\ flPc = "refreshing" /\ WithControl /\ ccConnOpen
+  /\ nCtlFail < MaxCtlFail
+  /\ nCtlFail' = nCtlFail + 1
+  /\ IF Defect_ReconnectInline
+     THEN IF ~ReconnectProceeds
+          THEN /\ ccConnOpen' = FALSE
+               /\ UNCHANGED <<flPc, reconn, reqPc, rdHasBc, rdBc, rdNow, rcPc>>
+          ELSE /\ flPc' = "selfwait"              \* reconnect() inline: refreshRing() from the flusher
+               /\ reconn' = TRUE
+               /\ ccConnOpen' = TRUE
+               /\ RefreshNowBy(FL)
+               /\ UNCHANGED rcPc
+     ELSE /\ ccConnOpen' = FALSE
+          /\ rcPc' = IF rcPc = "idle" THEN "reconnect" ELSE rcPc   \* go c.reconnect()
+          /\ UNCHANGED <<flPc, reconn, reqPc, rdHasBc, rdBc, rdNow>>
+  /\ UNCHANGED <<ccState, hbPc, nProbeFail>>
+  /\ UNCHANGED <<rdStopped, rdTimer, rdQuit, rdDone, flCur, nDebounce>>
+  /\ UNCHANGED <<evVars, seVars>>
+
+FlSelfAnswered ==
+  /\ flPc = "selfwait"
+  /\ reqPc[FL] \in {"answered", "closed"}
+  /\ reqPc' = [reqPc EXCEPT ![FL] = "idle"]
+  /\ flPc' = "refreshing"
+  /\ reconn' = FALSE
+  /\ UNCHANGED <<ccState, hbPc, ccConnOpen, nProbeFail, rcPc, nCtlFail>>
+  /\ UNCHANGED <<rdStopped, rdHasBc, rdBc, rdNow, rdTimer, rdQuit, rdDone, flCur, nDebounce>>
+  /\ UNCHANGED <<evVars, seVars>>
+
+\* the reconnect goroutine of the repaired HandleError
+RcReconnect ==
+  /\ rcPc = "reconnect"
+  /\ IF ~ReconnectProceeds
+     THEN /\ rcPc' = "done"
+          /\ UNCHANGED <<reqPc, rdHasBc, rdBc, rdNow, ccConnOpen, reconn>>
+     ELSE /\ rcPc' = "wait"
+          /\ reconn' = TRUE
+          /\ ccConnOpen' = TRUE
+          /\ RefreshNowBy(RC)
+  /\ UNCHANGED <<ccState, hbPc, nProbeFail, nCtlFail>>
+  /\ UNCHANGED <<rdStopped, rdTimer, rdQuit, rdDone, flPc, flCur, nDebounce>>
+  /\ UNCHANGED <<evVars, seVars>>
+
+RcAnswered ==
+  /\ rcPc = "wait"
+  /\ reqPc[RC] \in {"answered", "closed"}
+  /\ reqPc' = [reqPc EXCEPT ![RC] = "idle"]
+  /\ rcPc' = "done"
+  /\ reconn' = FALSE
+  /\ UNCHANGED <<ccState, hbPc, ccConnOpen, nProbeFail, nCtlFail>>
   /\ UNCHANGED <<rdStopped, rdHasBc, rdBc, rdNow, rdTimer, rdQuit, rdDone, flPc, flCur, nDebounce>>
   /\ UNCHANGED <<evVars, seVars>>
 
@@ -275,7 +345,7 @@ KControl(k) ==
      THEN ccState' = "closing" /\ Goto(k, "cc_send")
      ELSE /\ ccState' = IF Defect_HeartbeatStart THEN ccState ELSE "closing"
           /\ Goto(k, "cc_conn")
-  /\ UNCHANGED <<hbPc, ccConnOpen, nProbeFail>>
+  /\ UNCHANGED <<hbPc, ccConnOpen, nProbeFail, reconn, rcPc, nCtlFail>>
   /\ UNCHANGED <<isClosing, isClosed, poolsClosed, tracked, stray, ctxCancelled, nAddHost, panicked, qres>>
   /\ UNCHANGED <<rdVars, evVars>>
 
@@ -285,7 +355,7 @@ KCcSend(k) ==
   /\ hbPc = "select"
   /\ hbPc' = "exited"
   /\ Goto(k, "cc_conn")
-  /\ UNCHANGED <<ccState, ccConnOpen, nProbeFail>>
+  /\ UNCHANGED <<ccState, ccConnOpen, nProbeFail, reconn, rcPc, nCtlFail>>
   /\ UNCHANGED <<isClosing, isClosed, poolsClosed, tracked, stray, ctxCancelled, nAddHost, panicked, qres>>
   /\ UNCHANGED <<rdVars, evVars>>
 
@@ -293,7 +363,7 @@ KCcConn(k) ==
   /\ kpc[k] = "cc_conn"
   /\ ccConnOpen' = FALSE
   /\ Goto(k, "ev_node")
-  /\ UNCHANGED <<ccState, hbPc, nProbeFail>>
+  /\ UNCHANGED <<ccState, hbPc, nProbeFail, reconn, rcPc, nCtlFail>>
   /\ UNCHANGED <<isClosing, isClosed, poolsClosed, tracked, stray, ctxCancelled, nAddHost, panicked, qres>>
   /\ UNCHANGED <<rdVars, evVars>>
 
@@ -375,7 +445,8 @@ CloseStep(k) ==
 
 \* the driver's own goroutines (each step eventually happens)
 SysNext ==
-  \/ FlSelect \/ FlLock \/ FlRefreshDone
+  \/ FlSelect \/ FlLock \/ FlRefreshDone \/ FlSelfAnswered
+  \/ RcReconnect \/ RcAnswered
   \/ \E e \in EvDeb : EvFlush(e)
   \/ EvCallback
   \/ HbStart \/ HbProbe \/ HbReconnect \/ HbAnswered
@@ -385,7 +456,7 @@ SysNext ==
 EnvNext ==
   \/ \E r \in Requesters : RefreshNow(r)
   \/ Debounce \/ TimerFire \/ EvArrive \/ \E e \in EvDeb : EvTimerFire(e)
-  \/ HbTimer \/ FlAddHost
+  \/ HbTimer \/ FlAddHost \/ FlCtlFail
   \/ \E k \in Closers : KFlag(k)
   \/ Query
 
@@ -393,7 +464,7 @@ EnvNext ==
 Finished ==
   /\ \A k \in Closers : kpc[k] \in {"idle", "done"}
   /\ flPc = "exited" \/ (flPc = "select" /\ rdNow = 0 /\ rdTimer # "fired" /\ rdQuit = "open")
-  /\ hbPc \in {"select", "exited"}
+  /\ hbPc \in {"select", "exited"} /\ rcPc \in {"idle", "done"}
   /\ \A r \in Reqs : reqPc[r] # "waiting"
   /\ evCb = 0 /\ \A e \in EvDeb : evTimer[e] # "fired" \/ evPc[e] = "exited"
 Idle == Finished /\ UNCHANGED vars
@@ -402,7 +473,8 @@ Next == SysNext \/ EnvNext \/ Idle
 
 \* one weak-fairness condition per goroutine (its steps are mutually exclusive by program counter)
 Fairness ==
-  /\ WF_vars(FlSelect \/ FlLock \/ FlRefreshDone)
+  /\ WF_vars(FlSelect \/ FlLock \/ FlRefreshDone \/ FlSelfAnswered)
+  /\ WF_vars(RcReconnect \/ RcAnswered)
   /\ WF_vars((\E e \in EvDeb : EvFlush(e)) \/ EvCallback)
   /\ WF_vars(HbStart \/ HbProbe \/ HbReconnect \/ HbAnswered)
   /\ \A k \in Closers : WF_vars(kpc[k] # "idle" /\ CloseStep(k))
@@ -412,7 +484,8 @@ SpecNoFair == Init /\ [][Next]_vars
 
 (* ======================= what C17 demands ================================== *)
 TypeOK ==
-  /\ flPc \in {"select", "woke", "refreshing", "exited"}
+  /\ flPc \in {"select", "woke", "refreshing", "selfwait", "exited"}
+  /\ rcPc \in {"idle", "reconnect", "wait", "done"}
   /\ hbPc \in {"spawned", "select", "probe", "reconnect", "waitrefresh", "exited"}
   /\ reqPc \in [Reqs -> {"idle", "waiting", "answered", "closed"}]
   /\ rdNow \in 0 .. 1 /\ tracked \in 0 .. 1 + MaxAddHost /\ stray \in 0 .. MaxAddHost
@@ -434,5 +507,6 @@ StopReturns == \A k \in Closers : (kpc[k] \in {"rs_send", "rs_wait"}) ~> (kpc[k]
 \* nobody waits for a refresh answer forever
 NobodyStuck == \A r \in Reqs : (reqPc[r] = "waiting") ~> (reqPc[r] # "waiting")
 \* the background goroutines exit after Close
-GoroutinesExit == isClosed ~> (flPc = "exited" /\ hbPc = "exited" /\ \A e \in EvDeb : evPc[e] = "exited")
+GoroutinesExit == isClosed ~> (flPc = "exited" /\ hbPc = "exited" /\ rcPc \in {"idle", "done"}
+                                /\ \A e \in EvDeb : evPc[e] = "exited")
 =============================================================================
